@@ -8,6 +8,7 @@ import types
 from mc.core import UnitResult
 
 ID = "C13"
+PARTS = ['future', 'header', 'method-first-param', 'quoted', 'runtime']      # outcome classes every run must produce (guards against a part of the exploration silently not running)
 RULE = ("state A = annotation expression (every form of the typing vocabulary up to the depth bound) read through four routes: source annotation of a checked def, quoted string, "
         "`from __future__ import annotations`, and type_from_runtime(eval(E)); state B = def header (all parameter kinds/defaults, annotated from 4 terms incl. a class that shadows "
         "a builtin; plain, async, generator, async with nested generator) built from the def node (nested def) and from the runtime function object (module-level def, with and "
